@@ -18,7 +18,7 @@ def run_tables(ctx, inputs, tag):
     inp = ctx.path("in_%s.ndjson" % tag)
     with open(inp, "w") as f:
         for x in inputs:
-            f.write(json.dumps(dict(table=x["table"], addrs=x["addrs"]), separators=(",", ":")) + "\n")
+            f.write(json.dumps(dict(table=x["table"], addrs=x["addrs"], routes=bool(x.get("routes"))), separators=(",", ":")) + "\n")
     out = ctx.path("dispatch_%s.ndjson" % tag)
     ctx.driver("tree_driver", "asan", ["dispatch", inp, out])
     rej = ctx.validate("PortTreeTrace", "PortTreeTrace.cfg", out, timeout=3000)
@@ -32,13 +32,13 @@ def run_tables(ctx, inputs, tag):
                 r = json.loads(line)
             if i in rej:
                 bad = ctx.reject_extra.get(i, 0)
-                e = r["results"][bad - 1] if bad else {}
+                e = r["results"][bad - 1] if bad and "results" in r else {}
                 for c in rej[i]:
-                    ctx.reject(dict(clause=c, table=tname(r["table"]), hashed=r["hashed"]),
-                               dict(table=r["table"], addrs=[e.get("addr", [])] if e else [x["addr"] for x in r["results"][:50]]),
-                               "clause %s fails for table %s (perm %s) address '/%s' tags '%s'" % (c, tname(r["table"]), r["perm"],
+                    ctx.reject(dict(clause=c, table=tname(r["table"]), hashed=r.get("hashed", False)),
+                               dict(table=r["table"], routes=r.get("route", "direct") != "direct", addrs=[e.get("addr", [])] if e else [x["addr"] for x in r.get("results", [])[:50]]),
+                               "clause %s fails for table %s%s (perm %s) address '/%s' tags '%s'" % (c, tname(r["table"]), "" if r.get("route", "direct") == "direct" else " built through %sPorts" % r["route"].capitalize(), r["perm"],
                                     bytes(e.get("addr", [])).decode("latin1"), bytes(e.get("tags", [])).decode("latin1")))
-            if r is not None and i % 400 == 1 and r["results"]:
+            if r is not None and i % 400 == 1 and r.get("results"):
                 e = r["results"][len(r["results"]) // 2]
                 ctx.sample(dict(table=tname(r["table"]), perm=r["perm"], hashed=r["hashed"], address="/" + bytes(e["addr"]).decode("latin1"),
                                 tags=bytes(e["tags"]).decode("latin1"), callbacks=[c["id"] for c in e["loc"]]))
@@ -58,7 +58,7 @@ def count_results(ctx, inputs):
 def run(ctx):
     ctx.rule = ("tables: every state of PortTreeGen (flat: <=4 literal names over {a,b} of length<=3; struct: <=2/3 ports from 10 leaf shapes with #N, ':types', "
                 "a#2/b and 20 sub-tree shapes) + seeded random tables (1..24 names over {a,b,c}, types, #N, nesting <=3, default handler); each under up to 3 "
-                "permutations x derived addresses (members, one-character mutations, boundary indices) x 3 type strings x {no location buffer, location buffer}; "
+                "permutations (and, for a third of them, rebuilt through MergePorts and ClonePorts) x derived addresses (members, one-character mutations, boundary indices) x 3 type strings x {no location buffer, location buffer}; "
                 "evaluations = dispatch calls; non-trivial = distinct table with >= 2 ports")
     ctx.assumptions = ["sub-tree ports are single path components and hand the child object down like rRecur*/rRecurs (SNIP contract)",
                        "the default handler's own invocations are not judged (the statement covers ports); d.matches may or may not count them",
@@ -75,6 +75,8 @@ def run(ctx):
         if tag == "flat" and not thorough:   # quick: every table, fewer addresses each
             for v in vec:
                 v["addrs"] = v["addrs"][::2]
+        for k, v in enumerate(vec):          # derived tables (MergePorts of overlapping halves, ClonePorts of all names): every structured table, every third flat one
+            v["routes"] = tag == "struct" or thorough or k % 3 == 0
         count_results(ctx, vec)
         tot += run_tables(ctx, vec, tag)
     ctx.exhaustive = True
@@ -85,7 +87,7 @@ def run(ctx):
         tb = g.table(rng.randint(1, 3), rng.choice([3, 6, 12, 24]))
         if i % 4 == 0:          # long port names (15, 19, 40 characters before the varying part)
             treegen.lengthen(tb, treegen.LONG_PREFIXES[(i // 4) % 3])
-        rnd.append(dict(table=tb, addrs=treegen.addresses(rng, tb)))
+        rnd.append(dict(table=tb, addrs=treegen.addresses(rng, tb), routes=(i % 3 == 1)))
     count_results(ctx, rnd)
     tot += run_tables(ctx, rnd, "random")
     ctx.notes["table_permutation_runs"] = tot
